@@ -7,7 +7,7 @@ proof failure).  Re-run after a deliberate re-pinning of the contracts:  python3
 import ast, json, os, sys
 ROOT = os.path.dirname(os.path.dirname(os.path.abspath(__file__)))
 sys.path.insert(0, ROOT)
-from pyvc.localnames import ordered_locals
+from pyvc.localnames import ordered_locals, fingerprints
 
 repo = sys.argv[1] if len(sys.argv) > 1 else "/repo"
 out = {}
@@ -27,7 +27,8 @@ for dp, dn, fn in os.walk(repo):
                 elif isinstance(ch, (ast.FunctionDef, ast.AsyncFunctionDef)):
                     key = "%s::%s" % (rel, ".".join(qual + [ch.name]))
                     params, locs = ordered_locals(ch)
-                    out[key] = {"params": params, "locals": locs}
+                    fp = fingerprints(ch)
+                    out[key] = {"params": params, "locals": locs, "uses": {n: fp[n] for n in params + locs if n in fp}}
                     visit(ch, qual + [ch.name])
         visit(tree, [])
 json.dump(out, open(os.path.join(ROOT, "contracts", "locals.json"), "w"), indent=0, sort_keys=True)
